@@ -668,6 +668,9 @@ def run(tier):
         'compiler_crashes_non_edgedb_exceptions': [
             {'case': cases[i]['line'], 'kind': outs[i].get('kind'), 'msg': outs[i].get('msg', '')[:200]}
             for i in crashes[:8]],
+        'compiler_internal_errors_not_c07': [
+            {'case': c['line'], 'msg': o.get('msg', '')[:160]} for c, o in zip(cases, outs)
+            if o.get('st') == 'err' and o.get('kind') == 'InternalServerError'][:8],
         'coq_vm_compute_cross_checked': n_coq,
         'specs_with_unfalsifiable_policy_formula': not_falsifiable,
         'placements': len(pls),
